@@ -8,18 +8,20 @@
    Model/PaintSpec.v    what "the terminal shows the canvas" means (visual cell equality), the
                         Screen/terminal invariant [Sync], reachable histories [Reach]
 
-   Scope of the PROVED theorems: full-screen mode (alternate buffer), every screen size >= 1x1, UTF-8
-   with characters of width 1 and 2, narrow 8-bit encodings with charset flags None and "0" (DEC special
-   graphics), any attribute table (palette entries, AttrSpec objects, undefined names), every colour
-   depth, both bright-is-bold / bright-is-blink settings, BCE on and off; incremental redraw (row
-   diff), the erase-to-end-of-line shortcut, the insert-mode trick for the bottom-right cell; any
-   history of draws, redraws of the same canvas object, clear() with arbitrary terminal contents and
-   size changes.  NOT proved (statements kept below, decided by correspondence + oracle only or
-   refuted): zero-width and C0 control characters in the canvas text, the IBMPC charset "U"
-   (refuted), partial display mode (refuted). *)
+   Scope of the PROVED theorems: every screen size >= 1x1, UTF-8 with characters of width 1 and 2, narrow
+   8-bit encodings with charset flags None, "0" (DEC special graphics) and "U" (IBMPC), any attribute
+   table (palette entries, AttrSpec objects, undefined names), every colour depth, both bright-is-bold /
+   bright-is-blink settings, BCE on and off; incremental redraw (row diff), the erase-to-end-of-line
+   shortcut, the insert-mode trick for the bottom-right cell.  Full-screen mode: any history of draws,
+   redraws of the same canvas object, clear() with arbitrary terminal contents and size changes.
+   Partial display mode (no alternate buffer; display origin = terminal row 0, lines below blank, as many
+   terminal rows as canvas rows): any history of draws and clear().
+   NOT proved (statement kept below, decided by correspondence + oracle only): zero-width and C0 control
+   characters in the canvas text; partial display with a display origin below row 0 and size changes in
+   partial display mode (oracle only). *)
 From Coq Require Import ZArith List Bool.
 Import ListNotations.
-From Urwid Require Import PyBase TermRef DrawScreen HtmlGen PaintSpec TermRefFacts DrawScreenProofs HtmlGenProofs.
+From Urwid Require Import PyBase TermRef DrawScreen HtmlGen PaintSpec TermRefFacts DrawScreenProofs DrawPartialProofs HtmlGenProofs.
 Open Scope Z_scope.
 
 (* --- the SGR parameter list urwid sends for an AttrSpec means, to the terminal, exactly the visual
@@ -40,7 +42,7 @@ Theorem draw_paints :
     cfg_ok c -> Sync c s t -> t_cols t = cols -> t_rows t = rows ->
     canvas_ok c cols rows content -> cursor_ok cols rows cursor ->
     exists toks s',
-      draw_screen c s cols rows content cursor false = Ok (toks, s') /\
+      draw_screen c s cols rows content cursor false false = Ok (toks, s') /\
       Paints c (run t toks) content cursor /\ Sync c s' (run t toks) /\ s_buf s' = content /\
       t_cols (run t toks) = cols /\ t_rows (run t toks) = rows.
 Proof. exact draw_paints_lemma. Qed.
@@ -69,8 +71,8 @@ Theorem incremental_eq_full :
     cfg_ok c -> Sync c s t -> same_but_cells t t_any ->
     canvas_ok c (t_cols t) (t_rows t) content -> cursor_ok (t_cols t) (t_rows t) cursor ->
     exists toks s1 toks_full s2,
-      draw_screen c s (t_cols t) (t_rows t) content cursor false = Ok (toks, s1) /\
-      draw_screen c (clear s) (t_cols t) (t_rows t) content cursor false = Ok (toks_full, s2) /\
+      draw_screen c s (t_cols t) (t_rows t) content cursor false false = Ok (toks, s1) /\
+      draw_screen c (clear s) (t_cols t) (t_rows t) content cursor false false = Ok (toks_full, s2) /\
       Paints c (run t toks) content cursor /\ Paints c (run t_any toks_full) content cursor /\
       s_buf s1 = s_buf s2.
 Proof. exact incremental_eq_full_lemma. Qed.
@@ -79,39 +81,59 @@ Print Assumptions incremental_eq_full.
 (* --- drawing the canvas object that is already on the screen writes nothing --- *)
 Theorem redraw_same_canvas_writes_nothing :
   forall c s cols rows content cursor,
-    s_buf s <> [] -> rows = zlen content -> draw_screen c s cols rows content cursor true = Ok ([], s).
+    s_buf s <> [] -> rows = zlen content -> draw_screen c s cols rows content cursor true false = Ok ([], s).
 Proof. exact draw_same_noop. Qed.
 Print Assumptions redraw_same_canvas_writes_nothing.
 
 (* --- the HTML screenshot back-end: for every canvas (any text incl. wide, zero-width and control
-       characters, any attributes that are defined) with or without cursor, whenever draw_screen does
+       characters, any attributes) with or without cursor, whenever draw_screen does
        not raise, the spans carry exactly the canvas text row by row (control characters as '?'), at
        most one span has its colours swapped, it is a single character, and none without a cursor.
        (HTML escaping and the colour strings are outside the model: the harness unescapes the real
        output and compares colours through AttrSpec.get_rgb_values.) --- *)
 Theorem html_exact :
-  forall kinds maxrow rows cursor out,
-    html_draw kinds maxrow rows cursor = Ok out ->
+  forall maxrow rows cursor out,
+    html_draw maxrow rows cursor = Ok out ->
     map spans_text out = map row_text rows /\
     0 <= total_swapped out <= 1 /\ (cursor = None -> total_swapped out = 0) /\
     Forall one_char_highlights out.
 Proof. exact html_exact_lemma. Qed.
 Print Assumptions html_exact.
 
-(* --- REFUTED of the code as it is (witnesses replayed on the implementation: corpus/C04,
-       known findings C04-ibmpc-charset-leaks-into-next-frame and
-       C04-partial-display-cy-stale-without-cursor) --- *)
-(* with the IBMPC charset "U" allowed, a frame that ends inside a "U" run leaves SGR 11 selected and
-   the next frame is painted in the wrong charset *)
-Theorem draw_paints_charset_u_refuted : ~ draw_paints_charset_u_full.
-Proof. exact charset_u_refuted_lemma. Qed.
-Print Assumptions draw_paints_charset_u_refuted.
+(* --- plain histories from a fresh terminal, as a function: every sequence of draws of well-formed
+       canvases (charset flags None, "0" and "U") paints its last canvas.  (Before the repair of the
+       IBMPC leak this statement was refuted by a witness, kept in corpus/C04.) --- *)
+Theorem draws_paint_fullscreen :
+  draws_paint_statement false (fun c s t content cursor => Paints c t content cursor).
+Proof. exact draws_paint_fullscreen_lemma. Qed.
+Print Assumptions draws_paint_fullscreen.
 
-(* partial display: after a frame without a cursor self._cy is stale and later frames are painted on
-   the wrong rows *)
-Theorem draw_paints_partial_refuted : ~ draw_paints_partial_full.
-Proof. exact partial_refuted_lemma. Qed.
-Print Assumptions draw_paints_partial_refuted.
+(* --- partial display mode (Screen started without the alternate buffer): one frame from any state
+       in which Screen object and terminal agree ([SyncP]: the terminal cursor is on row _cy, the lines
+       below _rows_used are blank).  The rows 0.._rows_used of the canvas are shown - a canvas row that
+       is blank may have been left off the display, then only its text is demanded -, the rows below are
+       blank in the canvas and on the terminal, the cursor is where the canvas has it or hidden, nothing
+       scrolls, and the agreement is re-established.  (Before the repair of the stale _cy this was
+       refuted by a witness, kept in corpus/C04.) --- *)
+Theorem draw_paints_partial :
+  forall c s t cols rows content cursor,
+    cfg_ok c -> SyncP c s t -> t_cols t = cols -> t_rows t = rows ->
+    canvas_ok c cols rows content -> cursor_ok cols rows cursor ->
+    exists toks s',
+      draw_screen c s cols rows content cursor false false = Ok (toks, s') /\
+      PaintsPartial c s' (run t toks) content cursor /\ SyncP c s' (run t toks) /\
+      t_cols (run t toks) = cols /\ t_rows (run t toks) = rows.
+Proof. exact draw_paints_partial_lemma. Qed.
+Print Assumptions draw_paints_partial.
+
+(* every history of draws in partial display mode from a fresh terminal; clear() keeps the agreement *)
+Theorem draws_paint_partial : draws_paint_statement true PaintsPartial.
+Proof. exact draws_paint_partial_lemma. Qed.
+Print Assumptions draws_paint_partial.
+
+Theorem partial_clear_keeps_sync : forall c s t, SyncP c s t -> SyncP c (clear s) t.
+Proof. exact syncp_clear. Qed.
+Print Assumptions partial_clear_keeps_sync.
 
 (* --- NOT PROVED, decided by the correspondence and the oracle only: the statement of draw_paints for
        canvases that also contain zero-width (combining) characters and C0 control characters (painted
@@ -130,7 +152,7 @@ Definition draw_paints_any_text_full : Prop :=
     cfg_ok c -> Sync c s t -> t_cols t = cols -> t_rows t = rows ->
     canvas_any c cols rows content -> cursor_ok cols rows cursor ->
     exists toks s',
-      draw_screen c s cols rows content cursor false = Ok (toks, s') /\
+      draw_screen c s cols rows content cursor false false = Ok (toks, s') /\
       Paints c (run t toks)
              (map (map (fun r : crun => let '(a, cs, text) := r in (a, cs, map trans_chr text))) content) cursor /\
       Sync c s' (run t toks).
@@ -162,7 +184,7 @@ Qed.
 
 (* the model computes something non-trivial: SGR with bright colour, EL shortcut, CUP, the insert trick *)
 Example ex_tokens :
-  match draw_screen ex_cfg (init_scr false) 4 2 ex_canvas (Some (1, 1)) false with
+  match draw_screen ex_cfg (init_scr false) 4 2 ex_canvas (Some (1, 1)) false false with
   | Ok (toks, s') =>
       toks = [TG1; THide; TSgr [0; 39; 49]; THome; TCup 1 1;
               TSgr [0; 91; 1; 4; 48; 5; 17]; TCh 19990 2; TCh 97 1; TSgr [0; 39; 49]; TEl;
@@ -176,7 +198,7 @@ Proof. vm_compute. split; reflexivity. Qed.
 
 (* ... and the reference terminal, fed with these tokens over garbage, shows the canvas: bottom row *)
 Example ex_terminal_bottom_row :
-  match draw_screen ex_cfg (init_scr false) 4 2 ex_canvas (Some (1, 1)) false with
+  match draw_screen ex_cfg (init_scr false) 4 2 ex_canvas (Some (1, 1)) false false with
   | Ok (toks, _) =>
       let t := run (scramble (new_term 4 2) 2) toks in
       map c_cp (get_row (t_grid t) 1) = [120; 121; 19990; -1] /\ (t_x t, t_y t, t_visible t, t_scrolled t) = (1, 1, true, false)
@@ -186,7 +208,7 @@ Proof. vm_compute. split; reflexivity. Qed.
 
 (* the HTML model on a row with a wide character under the cursor: three spans, the middle one swapped *)
 Example ex_html :
-  html_draw [0; 1] 1 [[(0, 0, [(97, 1); (19990, 2); (60, 1)]); (1, 0, [(1, 0)])]] (Some (2, 0))
+  html_draw 1 [[(0, 0, [(97, 1); (19990, 2); (60, 1)]); (1, 0, [(1, 0)])]] (Some (2, 0))
   = Ok [[HSpan 0 false [(97, 1)]; HSpan 0 true [(19990, 2)]; HSpan 0 false [(60, 1)]; HSpan 1 false [(63, 1)]]].
 Proof. vm_compute. reflexivity. Qed.
 
@@ -204,3 +226,21 @@ Proof.
   - cbn. repeat split; discriminate || reflexivity.
   - exact E.
 Qed.
+
+(* the two former refutation witnesses, now painted correctly by the model (and by the code: corpus/C04) *)
+Definition w_cfg : cfg := mkCfg false true false false [(0, default_spec)].
+Example ex_ibmpc_no_longer_leaks :
+  match run_draws w_cfg (init_scr false) (new_term 2 1)
+          [([[(0, 2, [(97, 1); (32, 1)])]], None); ([[(0, 0, [(98, 1); (32, 1)])]], None)] with
+  | Some (_, t) => map (fun x => (c_cp x, c_cs x)) (get_row (t_grid t) 0) = [(98, 0); (32, 0)] /\ t_ibm t = false
+  | None => False
+  end.
+Proof. vm_compute. split; reflexivity. Qed.
+
+Example ex_partial_rows_stay_in_place :
+  match run_draws w_cfg (init_scr true) (new_term 1 2)
+          [([[(0, 0, [(97, 1)])]; [(0, 0, [(98, 1)])]], None); ([[(0, 0, [(99, 1)])]; [(0, 0, [(98, 1)])]], None)] with
+  | Some (s, t) => map (fun r => map c_cp r) (t_grid t) = [[99]; [98]] /\ s_cy s = t_y t
+  | None => False
+  end.
+Proof. vm_compute. split; reflexivity. Qed.
